@@ -91,6 +91,7 @@ void __verif_native_fail(const char *what, const char *name);
 #define __CPROVER_loop_invariant(...)
 #define __CPROVER_decreases(...)
 #define __VERIF_LOOP_ASSIGNS(...)
+#define __VERIF_RMW_EXTRA
 #else
 unsigned long long nondet_ull(void);
 static inline unsigned long long __verif_nd(void)
@@ -200,7 +201,7 @@ static inline void __verif_trap(void)
 		os_atomic_load(os_atomic_force_dependency_on(p, e), relaxed)
 #define os_atomic_load_with_dependency_on2o(p, f, e) \
 		os_atomic_load_with_dependency_on(&(p)->f, e)
-#define os_atomic_thread_fence(m) __verif_event(EV_FENCE, VMO_##m, 0, 0, 0)
+#define os_atomic_thread_fence(m) do { if (VMO_##m != VMO_relaxed) __verif_event(EV_FENCE, VMO_##m, 0, 0, 0); } while (0)
 
 #define os_atomic_load2o(p, f, m)  os_atomic_load(&(p)->f, m)
 #define os_atomic_store2o(p, f, v, m) os_atomic_store(&(p)->f, (v), m)
@@ -248,15 +249,40 @@ static inline void __verif_trap(void)
 		_result; \
 	})
 #else
+/* the ghost log is in the loop's write set (give-up paths may commit/call out before
+ * leaving the loop) and pinned by the invariant on the retry edge */
+#define __VLE(i) (__verif_log[i].kind == __CPROVER_loop_entry(__verif_log[i].kind) && \
+		__verif_log[i].mo == __CPROVER_loop_entry(__verif_log[i].mo) && \
+		__verif_log[i].p == __CPROVER_loop_entry(__verif_log[i].p) && \
+		__verif_log[i].a == __CPROVER_loop_entry(__verif_log[i].a) && \
+		__verif_log[i].b == __CPROVER_loop_entry(__verif_log[i].b))
+#if VERIF_LOG_CAP == 12
+#define __VERIF_LOG_UNCHANGED (__verif_n == __CPROVER_loop_entry(__verif_n) && \
+		__verif_crashed == __CPROVER_loop_entry(__verif_crashed) && \
+		__VLE(0) && __VLE(1) && __VLE(2) && __VLE(3) && __VLE(4) && __VLE(5) && \
+		__VLE(6) && __VLE(7) && __VLE(8) && __VLE(9) && __VLE(10) && __VLE(11))
+#elif VERIF_LOG_CAP == 20
+#define __VERIF_LOG_UNCHANGED (__verif_n == __CPROVER_loop_entry(__verif_n) && \
+		__verif_crashed == __CPROVER_loop_entry(__verif_crashed) && \
+		__VLE(0) && __VLE(1) && __VLE(2) && __VLE(3) && __VLE(4) && __VLE(5) && \
+		__VLE(6) && __VLE(7) && __VLE(8) && __VLE(9) && __VLE(10) && __VLE(11) && \
+		__VLE(12) && __VLE(13) && __VLE(14) && __VLE(15) && __VLE(16) && __VLE(17) && __VLE(18) && __VLE(19))
+#else
+#error VERIF_LOG_CAP must be 12 or 20
+#endif
+/* __VERIF_RMW_EXTRA is resolved by the extractor: per-site extra loop assigns
+ * (meta "rmw_extra": {"function#k": "a, b"}), default empty */
 #define os_atomic_rmw_loop(p, ov, nv, m, ...)  ({ \
 		_Bool _result = 0; \
 		__typeof__(p) _p = (p); \
 		ov = __VERIF_LOADVAL(_p); \
-		do __CPROVER_loop_invariant(__VERIF_RELY(_p, ov)) { \
+		do __VERIF_LOOP_ASSIGNS(ov, nv, _result, *_p, VERIF_GHOST __VERIF_RMW_EXTRA) \
+		__CPROVER_loop_invariant(__VERIF_RELY(_p, ov) && __VERIF_LOG_UNCHANGED) { \
+			ov = __VERIF_LOADVAL(_p); /* value seen by the previous failed CAS: arbitrary */ \
 			__VA_ARGS__; \
 			{ _os_atomic_basetypeof(_p) __vcur = __VERIF_LOADVAL(_p); \
 			  _result = (__vcur == ov); \
-			  if (_result) { *_p = nv; } else { ov = __vcur; } } \
+			  if (_result) { *_p = nv; } } \
 		} while (__builtin_expect(!_result, 0)); \
 		if (_result) __verif_commit(_p, ov, nv, VMO_##m); \
 		_result; \
